@@ -88,6 +88,33 @@ def gen_schedules(ctx, n, maxcalls, menu, gran):
     return out
 
 
+def option_cases(ctx, q):
+    """TLC enumerates the option obligations (spec/ConcurrencyOpts.tla): for every option field and base, two
+    goroutines whose options differ in exactly that field.  Each becomes a free-running -race run over the (opt) ops
+    restricted to the arguments that encode these option values (quick: four fields per process)."""
+    r = ctx.tlc("ConcurrencyOpts", "SPECIFICATION Spec\nCONSTRAINT Emit\nCHECK_DEADLOCK FALSE\n", workers=1, timeout=300)
+    if r.error or r.violated:
+        raise Infra("option pair generation failed:\n" + r.out[-2000:])
+    pairs = r.printed("O")
+    p = ctx.run([build(ctx), "ops"])
+    fields = json.loads(p.stdout.decode())["optFields"]
+    if not pairs or any(x["field"] not in fields for x in pairs):
+        raise Infra("option fields of the specification and of the harness differ: %s" % sorted({x["field"] for x in pairs} - set(fields)))
+    byfield = {}
+    for x in pairs:
+        f, c = fields.index(x["field"]), 1 if x["base"] == "colour" else 0
+        byfield.setdefault(x["field"], []).extend([f * 4 + c * 2, f * 4 + c * 2 + 1])     # off, on
+    names = sorted(byfield, key=fields.index)
+    group = 4 if q else 1
+    cases = []
+    for k in range(0, len(names), group):
+        args = sorted({a for n in names[k:k + group] for a in byfield[n]})
+        cases.append({"free": {"n": 8, "ops": 40 if q else 200, "runs": 1 if q else 3, "procs": 0, "only": "(opt)",
+                               "args": ",".join(map(str, args)), "fields": names[k:k + group]}})
+    ctx.cov["option_pairs"] = len(pairs)
+    return cases
+
+
 def parse_races(path_prefix):
     """race detector log files -> deduplicated [(a, b)]: the outermost ojg frame of each of the two stacks."""
     res = set()
@@ -128,7 +155,8 @@ def run_case(ctx, case, out, k):
     rp = os.path.join(ctx.scratch, "race_%d_%d" % (ctx._n, k))
     env = {"GORACE": "log_path=%s exitcode=0" % rp, "VERIF_SEED": str(fr.get("seed", ctx.seed))}
     p = ctx.run([build(ctx, race=True), "free", "-ref", ref, "-n", str(fr["n"]), "-ops", str(fr["ops"]), "-runs",
-                 str(fr["runs"]), "-procs", str(fr.get("procs", 0)), "-only", fr.get("only", "")], env=env, timeout=1800,
+                 str(fr["runs"]), "-procs", str(fr.get("procs", 0)), "-only", fr.get("only", ""), "-args", fr.get("args", "")],
+                env=env, timeout=1800,
                 check=False)
     lines = [l for l in p.stdout.split(b"\n") if l.strip()]
     fatal = []
@@ -225,6 +253,11 @@ def main(ctx):
     cases.append({"free": {"n": 16, "ops": 40 if q else 300, "runs": 1 if q else 4, "procs": 0, "only": writers}})
     cases.append({"free": {"n": 4, "ops": 60 if q else 300, "runs": 1 if q else 4, "procs": 0, "only": writers}})
     cases.append({"free": {"n": 8, "ops": 80 if q else 400, "runs": 1 if q else 4, "procs": 0, "only": "(rx)"}})
+    # option pairs enumerated by TLC; cold struct types (every call is the first use of fresh types, under different
+    # option sets, through oj, sen, alt, pretty) in fresh processes
+    cases += option_cases(ctx, q)
+    for k in range(2 if q else 6):
+        cases.append({"free": {"n": 16, "ops": 40 if q else 200, "runs": 1, "procs": (0, 4)[k % 2], "only": "cold ", "seed": ctx.seed + k}})
     recs = judge(ctx, cases)
     for r in recs:
         ctx.add(r["api"], r["kind"], r["locus"], r["witness"], case=r["case"], detail=r.get("detail"))
@@ -238,7 +271,7 @@ def main(ctx):
                        "around 1024 / 4096 / 65536 bytes) and focused menus in fresh processes (nested recomposer types on first "
                        "use, shared filters with multi-valued operands, buffer-returning calls); every recorded run "
                        "judged by TLC. distinct_nontrivial = distinct program tuples replayed."
-                       % ("pool.Get/pool.Put gates (hooks present) and whole calls" if hooks else "whole calls (no hooks in the tree)", 66))
+                       % ("pool.Get/pool.Put gates (hooks present) and whole calls" if hooks else "whole calls (no hooks in the tree)", 85))
     ctx.sample(scheds[len(scheds) // 2])
     ctx.sample(cases[1])
     ctx.assumptions += [
